@@ -5,6 +5,9 @@ package chain
 
 import (
 	"fmt"
+	"math"
+	"reflect"
+	"strings"
 
 	"github.com/ChainSafe/sygma-relayer/config"
 	"github.com/spf13/viper"
@@ -32,6 +35,32 @@ func (c *GeneralChainConfig) Validate() error {
 	}
 	if c.Name == "" {
 		return fmt.Errorf("required field chain.Name empty for chain %v", *c.Id)
+	}
+	return nil
+}
+
+// ValidateDomainID checks the raw "id" value of a chain config before it is decoded
+// into GeneralChainConfig.Id. A domain ID is an 8-bit value: decoding would silently
+// narrow anything else (257 and 1.5 both become 1), so such values are rejected here.
+// A missing id or an id of a non-numeric type is left for Decode and Validate to report.
+func ValidateDomainID(chainConfig map[string]interface{}) error {
+	for key, id := range chainConfig {
+		if !strings.EqualFold(key, "id") {
+			continue
+		}
+
+		valid := true
+		switch v := reflect.Indirect(reflect.ValueOf(id)); v.Kind() {
+		case reflect.Int, reflect.Int8, reflect.Int16, reflect.Int32, reflect.Int64:
+			valid = v.Int() >= 0 && v.Int() <= math.MaxUint8
+		case reflect.Uint, reflect.Uint8, reflect.Uint16, reflect.Uint32, reflect.Uint64, reflect.Uintptr:
+			valid = v.Uint() <= math.MaxUint8
+		case reflect.Float32, reflect.Float64:
+			valid = v.Float() >= 0 && v.Float() <= math.MaxUint8 && v.Float() == math.Trunc(v.Float())
+		}
+		if !valid {
+			return fmt.Errorf("chain id %v has to be an integer in range 0-255", id)
+		}
 	}
 	return nil
 }
